@@ -199,6 +199,39 @@ def run(ctx):
                     ctx.oracle_fail("the compact URL form does not parse back to the same matrix", dict(desc, url=url))
             except Exception:  # noqa
                 ctx.oracle_fail("the compact URL form is not parseable", dict(desc, url=url))
+            # ---- a SECOND volume (other size and affine) described into the same directory: refused, leaving the files
+            # as they are, or info and transform are both the second volume's - never one of each ----
+            if rng.random() < 0.25:
+                A2, _ = rand_affine(rng)
+                size2 = tuple(rng.randrange(1, 6) for _ in range(3))
+                raw2 = np.zeros(size2, dtype="uint8")
+                path2 = os.path.join(tmp, "v2.nii")
+                nibabel.save(nibabel.Nifti1Image(raw2, A2, dtype=raw2.dtype), path2)
+                snap = {n: open(os.path.join(dest, n), "rb").read() for n in ("info_fullres.json", "transform.json")}
+                try:
+                    rc2 = volume_reader.volume_file_to_info(path2, dest, options=opts)
+                except Exception:  # noqa
+                    rc2 = "raised"
+                now = {n: open(os.path.join(dest, n), "rb").read() for n in ("info_fullres.json", "transform.json")}
+                ctx.hist("second_generate_info", "refused" if rc2 not in (0, 4) else "accepted")
+                d2 = dict(desc, second_affine=A2.tolist(), second_size=list(size2), second_status=rc2)
+                if rc2 in (0, 4):
+                    i2 = json.loads(now["info_fullres.json"])
+                    T2 = np.array(json.loads(now["transform.json"]), dtype=float)
+                    aff2 = nibabel.load(path2).affine
+                    res2 = np.array(i2["scales"][0]["resolution"], dtype=float)
+                    ok2 = i2["scales"][0]["size"] == list(size2)
+                    for idx in [(0, 0, 0), (1, 0, 2)]:
+                        i_ = np.array(idx, dtype=float)
+                        lhs = T2[:3, :3] @ ((i_ + 0.5) * res2) + T2[:3, 3]
+                        rhs = (aff2[:3, :3] @ i_ + aff2[:3, 3]) * 1e6
+                        if float(np.max(np.abs(lhs - rhs))) > 1e-6 * max(1.0, float(np.max(np.abs(rhs)))):
+                            ok2 = False
+                    if not ok2:
+                        ctx.oracle_fail("a second --generate-info into the same directory reported success but info and "
+                                        "transform do not both describe the second volume", d2)
+                elif now != snap:
+                    ctx.oracle_fail("a refused second --generate-info changed the files of the first", d2)
             # ---- Lean model ----
             reqs.append("ng-transform " + ",".join(fr(aff[r, c]) for r in range(3) for c in range(4)) + " "
                         + ",".join(fr(v) for v in vs))
